@@ -39,6 +39,7 @@ struct Plan {
     long trunc = -1;              // serve only the first k bytes of the module (torn write)
     std::vector<std::vector<std::string>> args;   // option groups, e.g. {"-t","3"}
     int shape = 0; bool input_in_outdir = false;
+    uint32_t libc_every = 0;   // every n-th sprintf/strcpy/... return is a scheduling point
     std::vector<FileSpec> decoys;
     std::vector<IoFault> faults;
     std::vector<uint32_t> sched;
@@ -272,7 +273,7 @@ static std::string plan_to_text(const Plan& p, const std::vector<uint32_t>* trac
     std::ostringstream o;
     o << "engine E2\nproperty " << p.prop << "\nseed " << p.seed << "\n";
     o << "config policy=" << p.policy << " switch_prob=" << p.switch_prob << " pct_depth=" << p.pct_depth << " mem_mean=" << p.mem_mean
-      << " spurious=" << p.spurious << " ncpu=" << p.ncpu << " tcfail=" << p.tcfail << " trunc=" << p.trunc << " shape=" << p.shape << " input_in_outdir=" << (p.input_in_outdir ? 1 : 0)
+      << " spurious=" << p.spurious << " ncpu=" << p.ncpu << " tcfail=" << p.tcfail << " trunc=" << p.trunc << " libc_every=" << p.libc_every << " shape=" << p.shape << " input_in_outdir=" << (p.input_in_outdir ? 1 : 0)
       << " nfuncs=" << p.nfuncs << " gseed=" << p.gseed << "\n";
     o << "module " << p.module << "\n";
     if (!p.ref.empty()) o << "ref " << p.ref << "\n";
@@ -294,7 +295,7 @@ static bool plan_from_text(const std::string& text, Plan& p) {
         else if (w == "config") { std::string kv; while (ls >> kv) { size_t e = kv.find('='); if (e == std::string::npos) continue; std::string k = kv.substr(0, e), v = kv.substr(e + 1);
             if (k == "policy") p.policy = atoi(v.c_str()); else if (k == "switch_prob") p.switch_prob = atof(v.c_str()); else if (k == "pct_depth") p.pct_depth = atoi(v.c_str());
             else if (k == "mem_mean") p.mem_mean = (uint32_t)strtoul(v.c_str(), 0, 10); else if (k == "spurious") p.spurious = atof(v.c_str()); else if (k == "ncpu") p.ncpu = atoi(v.c_str());
-            else if (k == "tcfail") p.tcfail = atof(v.c_str()); else if (k == "trunc") p.trunc = atol(v.c_str()); else if (k == "shape") p.shape = atoi(v.c_str());
+            else if (k == "tcfail") p.tcfail = atof(v.c_str()); else if (k == "trunc") p.trunc = atol(v.c_str()); else if (k == "shape") p.shape = atoi(v.c_str()); else if (k == "libc_every") p.libc_every = (uint32_t)atoi(v.c_str());
             else if (k == "input_in_outdir") p.input_in_outdir = atoi(v.c_str()) != 0; else if (k == "nfuncs") p.nfuncs = atoi(v.c_str()); else if (k == "gseed") p.gseed = strtoull(v.c_str(), 0, 10); } }
         else if (w == "module") ls >> p.module; else if (w == "ref") ls >> p.ref; else if (w == "changed") ls >> p.changed;
         else if (w == "arg") { std::vector<std::string> a; std::string s; while (ls >> s) a.push_back(s); if (!a.empty()) p.args.push_back(a); }
@@ -394,6 +395,7 @@ static Plan make_plan(const std::string& prop, uint64_t root, uint64_t idx, bool
     static const uint32_t mm[] = {0, 50, 300, 2000, 20000};
     p.mem_mean = mm[r.below(5)];
     p.spurious = r.below(2) ? 0 : (r.below(2) ? 0.02 : 0.2);
+    { static const uint32_t le[] = {0, 1, 1, 2, 5}; p.libc_every = le[(p.seed >> 40) % 5]; }
     if (prop == "C10") {
         long sz = ce.size;
         if (c10_enum) { long k = (long)(idx % 4096); p.trunc = (k == 0) ? -1 : (k < sz ? k : -2); }
@@ -496,10 +498,11 @@ static void run_translator(const Plan& p, bool canonical, RunOut& o) {
         if (!canonical) ctx.faults = p.faults;
         C = &ctx; g_kinds = &o.kinds; g_ncpu = p.ncpu;
         std::vector<char*> argv; for (auto& s : av) argv.push_back((char*)s.c_str()); argv.push_back(nullptr);
-        Config cfg; cfg.seed = p.seed; cfg.max_steps = 400000; cfg.tick_ns = 1000;
+        Config cfg; cfg.seed = p.seed; cfg.max_steps = 1500000; cfg.tick_ns = 1000;
         if (canonical) { cfg.policy = 0; cfg.switch_prob = 0; cfg.mem_mean = 0; cfg.spurious_prob = 0; cfg.timer_prob = 0; sim::set_replay_trace(std::vector<uint32_t>()); }
         else {
             cfg.policy = p.policy; cfg.switch_prob = p.switch_prob; cfg.pct_depth = p.pct_depth; cfg.pct_horizon = 3000; cfg.mem_mean = p.mem_mean; cfg.spurious_prob = p.spurious; cfg.timer_prob = 0;
+            cfg.libc_point_every = p.libc_every;
             if (p.tcfail > 0) { cfg.thread_create_faults = true; cfg.thread_create_fail_prob = p.tcfail; }
             sim::set_replay_trace(p.sched);
         }
